@@ -22,10 +22,6 @@ NAME_MAPS = {
     "real": REAL_NAMES,
     "prefix": {"A": "A", "B": "AA", "C": "A A", "D": "AAA", "E": "A_A",
                "F": "a", "G": "Aa", "H": "A.A"},
-    "internal": {"A": "START", "B": "END", "C": "LOOP", "D": "BREAK",
-                 "E": "DUMMY", "F": "LOOPBACK", "G": "XOR", "H": "tau"},
-    "internal2": {"A": "EVENT_LOOP_1", "B": "AND", "C": "OR", "D": "START_LOOP",
-                  "E": "KILL", "F": "PATH", "G": "END LOOP", "H": "None"},
     "digits": {"A": "1", "B": "2", "C": "10", "D": "01", "E": "1.0",
                "F": "-1", "G": "0", "H": "1e3"},
     "unicode": {"A": "Zahlung best\u00e4tigt", "B": "\u652f\u4ed8",
@@ -39,6 +35,18 @@ NAME_MAPS = {
                  "G": "case", "H": "switch"},
     "long": {k: k * 120 for k in "ABCDEFGH"},
 }
+# words the tool, its intermediate representations or the dialect use
+# themselves; every word is placed both early and late in the definition
+_WORDS = ["START", "END", "LOOP", "BREAK", "DUMMY", "LOOPBACK", "XOR", "tau",
+          "EVENT_LOOP_1", "AND", "OR", "START_LOOP", "KILL", "PATH",
+          "END LOOP", "None", "DETACH", "MERGE", "NOT", "IF", "ELSE", "kill",
+          "START_XOR", "NODE"]
+for _k in range(0, len(_WORDS), 4):
+    _w = _WORDS[_k:_k + 4]
+    NAME_MAPS[f"internal{_k // 4}"] = dict(zip("ABCD", _w),
+                                           E="e", F="f", G="g", H="h")
+    NAME_MAPS[f"internal{_k // 4}r"] = dict(zip("DCBA", _w),
+                                            E="e", F="f", G="g", H="h")
 PUML_NAMES = {"real": "Users Service", "punct": "shop.checkout v2",
               "unicode": "Auftr\u00e4ge", "digits": "42"}
 
